@@ -24,7 +24,8 @@ reg(Prop(
          ' Instantiation with the heap-backed scalar vf::heavy (matrices 2x2, 3x3, vectors, dims); rows passed as named non-const lvalues twice. Nine rectangular shapes (1x3 ... 5x2): identity, init, transpose, sums, products between compatible shapes, matrix * vector, comparison.'
          ' A non-commutative exact scalar (upper triangular 2x2 integer matrices): s * M, M * s, s * v, v * s, A * B, A * v element by element with the factors in the documented order.'
          ' A trivially copyable padding-free scalar whose == is coarser than byte equality (unreduced residues mod 7): == / != of vector, dim, matrix and (A+B)*s == A*s+B*s.'
-         ' vector (+ - *) dim with different value types (long/unsigned, size_t/unsigned, int/short, long/int): per component in the usual arithmetic conversion.',
+         ' vector (+ - *) dim with different value types (long/unsigned, size_t/unsigned, int/short, long/int): per component in the usual arithmetic conversion.'
+         ' vector / dim / matrix init with functions that have state (an input iterator, a counter): called for index 0, 1, 2, ... (row-major).',
     assumptions=COMMON_ASSUMPTIONS + [
         'matrices are row-major (documented): element (r,c) is element r*C+c of the storage; results are read back through storage()[i]',
         'entries in [-9,9] (2x2: {-1,0,1,2}); scalar types int (2x2, 3x3, vectors, dims) and long (4x4) so that no product or determinant overflows; UBSan would report an overflow as a violation',
